@@ -252,3 +252,232 @@ Proof.
       [apply N.eqb_eq in E; rewrite E; reflexivity | clear E] end.
   apply dec_escape_decode; assumption.
 Qed.
+
+(** * Hexadecimal code-point escapes *)
+
+Fixpoint hexval (v : N) (ds : bytes) : N :=
+  match ds with
+  | [] => v
+  | d :: ds' => hexval (v * 16 + unhexdigit d) ds'
+  end.
+
+Lemma hexval_app v a b : hexval v (a ++ b) = hexval (hexval v a) b.
+Proof. revert v; induction a as [|x a IH]; intros v; cbn [app hexval]; [reflexivity | apply IH]. Qed.
+
+Lemma hexval_ge v ds : v <= hexval v ds.
+Proof.
+  revert v; induction ds as [|d ds IH]; intros v; cbn [hexval]; [lia|].
+  specialize (IH (v * 16 + unhexdigit d)). lia.
+Qed.
+
+Lemma hdf_app f n acc : hex_digits_fuel f n acc = hex_digits_fuel f n [] ++ acc.
+Proof.
+  revert n acc; induction f as [|f IH]; intros n acc; cbn [hex_digits_fuel]; [reflexivity|].
+  destruct (n <? 16); [reflexivity|].
+  rewrite IH. rewrite (IH _ [_]). rewrite <- app_assoc. reflexivity.
+Qed.
+
+Lemma hexdigit_ok n : n < 16 -> is_hexdigit (hexdigit n) = true /\ unhexdigit (hexdigit n) = n.
+Proof.
+  intros Hn.
+  assert (H : (fun n => negb (n <? 16) || (is_hexdigit (hexdigit n) && (unhexdigit (hexdigit n) =? n))) n = true).
+  { apply byte_sweep; [vm_compute; reflexivity | lia]. }
+  cbv beta in H. assert (n <? 16 = true) as E by lia. rewrite E in H. cbn [negb orb] in H.
+  apply andb_true_iff in H as [H1 H2]. apply N.eqb_eq in H2. split; assumption.
+Qed.
+
+Lemma hdf_spec f n : n < 2 ^ N.of_nat f ->
+  forallb is_hexdigit (hex_digits_fuel f n []) = true /\ hexval 0 (hex_digits_fuel f n []) = n.
+Proof.
+  revert n; induction f as [|f IH]; intros n Hn.
+  - change (2 ^ N.of_nat 0) with 1 in Hn. cbn [hex_digits_fuel forallb hexval]. split; [reflexivity | lia].
+  - cbn [hex_digits_fuel]. destruct (n <? 16) eqn:E.
+    + destruct (hexdigit_ok n) as [A B]; [lia|].
+      cbn [forallb hexval]. rewrite A, B. split; [reflexivity | lia].
+    + rewrite hdf_app, forallb_app, hexval_app.
+      rewrite Nat2N.inj_succ, N.pow_succ_r' in Hn.
+      destruct (IH (n / 16)) as [A B].
+      { remember (2 ^ N.of_nat f) as P. lia. }
+      destruct (hexdigit_ok (n mod 16)) as [A' B']; [lia|].
+      rewrite A, B. cbn [forallb hexval]. rewrite A', B'. split; [reflexivity | lia].
+Qed.
+
+Lemma fuel_ok n : n < 2 ^ N.of_nat (S (N.to_nat (N.log2 n))).
+Proof.
+  rewrite Nat2N.inj_succ, N2Nat.id. destruct (N.eq_dec n 0) as [->|Hn].
+  - reflexivity.
+  - apply N.log2_spec. lia.
+Qed.
+
+Lemma hex_digits_spec n :
+  forallb is_hexdigit (hex_digits n) = true /\ hexval 0 (hex_digits n) = n /\ hex_digits n <> [].
+Proof.
+  unfold hex_digits. destruct (hdf_spec _ n (fuel_ok n)) as [A B]. split; [exact A|]. split; [exact B|].
+  cbn [hex_digits_fuel]. destruct (n <? 16); [discriminate|].
+  rewrite hdf_app. destruct (hex_digits_fuel _ _ []); discriminate.
+Qed.
+
+Lemma ucode_digits luau q ds : forall v k rest,
+  forallb is_hexdigit ds = true -> hexval v ds <= 1114111 ->
+  unescape_from luau q (UCode v k) (ds ++ rest)
+  = unescape_from luau q (UCode (hexval v ds) (k + List.length ds)) rest.
+Proof.
+  induction ds as [|d ds IH]; intros v k rest Hd Hv.
+  - cbn [app hexval List.length]. rewrite Nat.add_0_r. reflexivity.
+  - cbn [forallb] in Hd. apply andb_true_iff in Hd as [Hd1 Hd2]. cbn [hexval] in Hv |- *.
+    cbn [app]. rewrite un_code_cons, Hd1.
+    pose proof (hexval_ge (v * 16 + unhexdigit d) ds) as Hge.
+    assert (v * 16 + unhexdigit d <=? 1114111 = true) as -> by lia.
+    rewrite IH by assumption. cbn [List.length]. rewrite Nat.add_succ_r. reflexivity.
+Qed.
+
+Lemma un_code_close luau q v k R : (0 < k)%nat ->
+  unescape_from luau q (UCode v k) (125 :: R) = emit (utf8_encode v) (unescape_from luau q UNormal R).
+Proof. intros Hk. destruct k; [lia|]. reflexivity. Qed.
+
+Lemma u_escape_decode q c R : c <= 1114111 ->
+  unescape_from true q UNormal (92 :: 117 :: 123 :: hex_digits c ++ 125 :: R)
+  = emit (utf8_encode c) (unescape_from true q UNormal R).
+Proof.
+  intros Hc. destruct (hex_digits_spec c) as (A & B & C).
+  rewrite un_u_prefix, ucode_digits by (try assumption; rewrite B; exact Hc).
+  rewrite B. apply un_code_close. destruct (hex_digits c); [congruence | cbn [List.length]; lia].
+Qed.
+
+(** * The two loops of [write_quoted] *)
+
+Lemma simple_escape_quote q : q = 34 \/ q = 39 -> simple_escape q = Some q.
+Proof. intros [->| ->]; reflexivity. Qed.
+
+Lemma needs_escaping_false c : needs_escaping c = false ->
+  c <> 92 /\ c <> 10 /\ c <> 13 /\ c < 128.
+Proof. unfold needs_escaping, is_graphic. intros H. lia. Qed.
+
+Lemma raw_decode luau q c R : c <> q -> needs_escaping c = false ->
+  unescape_from luau q UNormal (c :: R) = emit [c] (unescape_from luau q UNormal R).
+Proof.
+  intros Hq Hn. apply needs_escaping_false in Hn. rewrite un_normal_cons.
+  assert (c =? 92 = false) as -> by lia.
+  assert ((c =? q) || (c =? 10) || (c =? 13) = false) as -> by lia.
+  reflexivity.
+Qed.
+
+Lemma quote_decode luau q R : q = 34 \/ q = 39 ->
+  unescape_from luau q UNormal (92 :: q :: R) = emit [q] (unescape_from luau q UNormal R).
+Proof. intros Hq. rewrite un_normal_bs. apply un_esc_simple, simple_escape_quote, Hq. Qed.
+
+Lemma qb_first q rest :
+  next_is_digit_b (quote_bytes q rest) = true -> next_is_digit_b rest = true.
+Proof.
+  destruct rest as [|n rest]; [intros H; exact H|]. cbn [quote_bytes].
+  destruct (n =? q) eqn:E1.
+  { cbn [app next_is_digit_b]. intros H. vm_compute in H. discriminate H. }
+  destruct (needs_escaping n) eqn:E2.
+  { destruct (escape_hd n (next_is_digit_b rest)) as [tl ->]. cbn [app next_is_digit_b].
+    intros H. vm_compute in H. discriminate H. }
+  cbn [app next_is_digit_b]. intros H; exact H.
+Qed.
+
+Lemma quote_bytes_decode luau q s : q = 34 \/ q = 39 -> wf_bytes s = true ->
+  unescape_from luau q UNormal (quote_bytes q s) = Some s.
+Proof.
+  intros Hq. induction s as [|c rest IH]; intros Hwf; [reflexivity|].
+  apply wf_cons in Hwf as [Hc Hwf]. specialize (IH Hwf). cbn [quote_bytes].
+  destruct (c =? q) eqn:E1.
+  { apply N.eqb_eq in E1; subst c. cbn [app]. rewrite quote_decode, IH by exact Hq. reflexivity. }
+  destruct (needs_escaping c) eqn:E2.
+  { rewrite escape_decode, IH; [reflexivity | exact Hc | apply qb_first]. }
+  cbn [app]. rewrite raw_decode, IH; [reflexivity | lia | exact E2].
+Qed.
+
+Lemma qc_first q rest :
+  next_is_digit_b (quote_chars q rest) = true -> next_is_digit_c rest = true.
+Proof.
+  destruct rest as [|n rest]; [intros H; exact H|]. cbn [quote_chars].
+  destruct (n =? q) eqn:E1.
+  { cbn [app next_is_digit_b]. intros H. vm_compute in H. discriminate H. }
+  destruct ((128 <=? n) || needs_escaping n) eqn:E2.
+  { destruct (n <? 128) eqn:E3.
+    - destruct (escape_hd n (next_is_digit_c rest)) as [tl ->]. cbn [app next_is_digit_b].
+      intros H. vm_compute in H. discriminate H.
+    - cbn [app next_is_digit_b]. intros H. vm_compute in H. discriminate H. }
+  cbn [app next_is_digit_b next_is_digit_c]. intros H.
+  rewrite N.mod_small by lia. exact H.
+Qed.
+
+Lemma quote_chars_decode q cps : q = 34 \/ q = 39 -> Forall (fun c => c <= 1114111) cps ->
+  unescape_from true q UNormal (quote_chars q cps) = Some (flat_map utf8_encode cps).
+Proof.
+  intros Hq. induction cps as [|c rest IH]; intros Hb; [reflexivity|].
+  inversion Hb as [|? ? Hc Hb']; subst. specialize (IH Hb'). cbn [quote_chars flat_map].
+  destruct (c =? q) eqn:E1.
+  { apply N.eqb_eq in E1; subst c. cbn [app]. rewrite quote_decode, IH by exact Hq.
+    unfold utf8_encode. assert (q <? 128 = true) as -> by lia. reflexivity. }
+  destruct ((128 <=? c) || needs_escaping c) eqn:E2.
+  { destruct (c <? 128) eqn:E3.
+    - rewrite escape_decode, IH; [| lia | apply qc_first].
+      unfold utf8_encode. rewrite E3. reflexivity.
+    - rewrite <- !app_assoc. cbn [app]. rewrite u_escape_decode, IH by exact Hc. reflexivity. }
+  apply orb_false_iff in E2 as [E2 E3].
+  cbn [app]. rewrite raw_decode, IH; [| lia | exact E3].
+  unfold utf8_encode. assert (c <? 128 = true) as -> by lia. reflexivity.
+Qed.
+
+(** on pure ASCII the char loop and the byte loop coincide *)
+Lemma quote_chars_ascii q s : forallb (fun c => c <? 128) s = true -> quote_chars q s = quote_bytes q s.
+Proof.
+  induction s as [|c rest IH]; intros H; [reflexivity|].
+  cbn [forallb] in H. apply andb_true_iff in H as [Hc H]. cbn [quote_chars quote_bytes].
+  rewrite (IH H), Hc.
+  assert (128 <=? c = false) as -> by lia. cbn [orb].
+  assert (next_is_digit_c rest = next_is_digit_b rest) as ->; [|reflexivity].
+  destruct rest as [|n rest]; [reflexivity|]. cbn [next_is_digit_c next_is_digit_b].
+  cbn [forallb] in H. apply andb_true_iff in H as [Hn _]. rewrite N.mod_small by lia. reflexivity.
+Qed.
+
+Lemma utf8_decode_ascii s : forallb (fun c => c <? 128) s = true -> utf8_decode s = Some s.
+Proof.
+  induction s as [|c rest IH]; intros H; [reflexivity|].
+  cbn [forallb] in H. apply andb_true_iff in H as [Hc H]. cbn [utf8_decode].
+  rewrite Hc, (IH H). reflexivity.
+Qed.
+
+(** * Quoted literals *)
+
+Lemma get_quote_symbol_cases s : get_quote_symbol s = 34 \/ get_quote_symbol s = 39.
+Proof.
+  unfold get_quote_symbol. destruct (existsb (N.eqb 34) s); [right; reflexivity|].
+  destruct (existsb (N.eqb 39) s); [left|right]; reflexivity.
+Qed.
+
+Lemma decode_quoted_wrap luau q body : q = 34 \/ q = 39 ->
+  decode_quoted luau (q :: body ++ [q]) = unescape luau q body.
+Proof.
+  intros Hq. unfold decode_quoted.
+  assert ((q =? 34) || (q =? 39) = true) as -> by lia.
+  rewrite rev_unit, N.eqb_refl, rev_involutive. reflexivity.
+Qed.
+
+Theorem quoted_roundtrip_luau : forall s, wf_bytes s = true -> decode_quoted true (write_quoted s) = Some s.
+Proof.
+  intros s Hwf. unfold write_quoted. cbv zeta.
+  pose proof (get_quote_symbol_cases s) as Hq.
+  rewrite decode_quoted_wrap by exact Hq. unfold unescape, quoted_body. cbv zeta.
+  destruct (utf8_decode s) as [cps|] eqn:E.
+  - rewrite quote_chars_decode; [| exact Hq | exact (utf8_decode_bound _ _ E)].
+    rewrite (utf8_roundtrip _ _ E). reflexivity.
+  - apply quote_bytes_decode; assumption.
+Qed.
+
+Theorem quoted_roundtrip_51 : forall s, wf_bytes s = true ->
+  (utf8_decode s = None \/ forallb (fun c => c <? 128) s = true) ->
+  decode_quoted false (write_quoted s) = Some s.
+Proof.
+  intros s Hwf H. unfold write_quoted. cbv zeta.
+  pose proof (get_quote_symbol_cases s) as Hq.
+  rewrite decode_quoted_wrap by exact Hq. unfold unescape, quoted_body. cbv zeta.
+  destruct H as [H|H].
+  - rewrite H. apply quote_bytes_decode; assumption.
+  - rewrite (utf8_decode_ascii s H), (quote_chars_ascii _ s H).
+    apply quote_bytes_decode; assumption.
+Qed.
